@@ -292,6 +292,10 @@ class Campaign:
             for sp, b, li in self.targets_for(ti):
                 priors = c.get("priors", (0,))
                 for prior in priors:
+                    if prior == 2 and c.get("populate") is not None:
+                        # the object that is reused must hold something ELSE than what is decoded now: first decode a fully populated valid
+                        # message of the type into a fresh object (kept by the driver; the result of this extra command is not judged)
+                        per.setdefault(b, []).append(b.tg.cmd_des(self.nid(), li, c["populate"], prior=0, op="D"))
                     cid = self.nid()
                     per.setdefault(b, []).append(b.tg.cmd_des(cid, li, c["data"], null=c.get("null", False), prior=prior, op=op))
                     back[cid] = (c, sp, prior)
